@@ -257,17 +257,46 @@ def scan_items(src: str, lo: int = 0, hi: Optional[int] = None) -> List[Item]:
     return items
 
 
-def find_item(items: List[Item], selector: str) -> Item:
+def impl_key(header: str) -> str:
+    """'<S, K> ArcWake for StreamWaker<S, K> where S: Send,' -> 'ArcWake for StreamWaker'"""
+    h = header
+    h = re.split(r'\bwhere\b', h)[0]
+    out = []; depth = 0
+    for ch in h:
+        if ch == '<':
+            depth += 1
+        elif ch == '>':
+            depth = max(0, depth - 1)
+        elif depth == 0:
+            out.append(ch)
+    return ' '.join(''.join(out).split())
+
+
+def find_item(items: List[Item], selector: str, with_parent: bool = False):
     """selector: 'impl Decoder for ZmqCodec / fn decode'  |  'fn encode_frame'  |  'struct Frame'"""
     segs = [s.strip() for s in selector.split(' / ')]
     cur = items
     found = None
+    parent = None
     for seg in segs:
         mm = re.match(r'([a-z_]+)\s*(.*)$', seg, re.S)
         kind, name = mm.group(1), norm(mm.group(2))
         cands = [it for it in cur if it.kind == kind and it.name == name]
+        if not cands and kind == 'impl':
+            # the impl header changed (a bound added or reordered, a where clause moved): fall back to "Trait for Type"
+            # with all generic arguments and bounds stripped; unique, or made unique by the item looked for inside it
+            key = impl_key(name)
+            cands = [it for it in cur if it.kind == 'impl' and impl_key(it.name) == key]
+        if len(cands) > 1 and kind == 'impl' and seg is not segs[-1]:
+            # several impl blocks with this header (an impl split in two): the one that contains the item looked for
+            nxt = segs[segs.index(seg) + 1]
+            m2 = re.match(r'([a-z_]+)\s*(.*)$', nxt, re.S)
+            cands = [it for it in cands if any(c.kind == m2.group(1) and c.name == norm(m2.group(2)) for c in it.children)]
         if len(cands) != 1:
             raise KeyError('anchor %r: %d matches for segment %r' % (selector, len(cands), seg))
+        parent = found
         found = cands[0]
         cur = found.children
+    if with_parent:
+        return found, (parent if len(segs) > 1 else None)
     return found
